@@ -33,10 +33,12 @@ func RealConformance(idx, n int, thorough bool) {
 	}
 	o := &scnOpts{Forks: []world.Fork{world.Shanghai}, Answers: realAnswers, BoundAll: true, TopValues: []int{0, 1}}
 	o.Gen = scn.GenOpts{MaxDepth: 2, Effects: []scn.Effect{scn.ENone, scn.ESstore}, PreEffects: []scn.Effect{scn.ENone},
-		Terms: []scn.Term{scn.TStop, scn.TRevert, scn.TInvalid}, Kinds: []scn.Kind{scn.KCall, scn.KStaticCall}, Values: []int{0, 1}, Targets: []scn.Target{scn.TgChild, scn.TgCodeless}}
+		Terms: []scn.Term{scn.TStop, scn.TRevert}, Kinds: []scn.Kind{scn.KCall}, Values: []int{0, 1}, Targets: []scn.Target{scn.TgChild}}
 	bound := 1
 	if thorough {
 		bound = 2
+		o.Gen.Terms = []scn.Term{scn.TStop, scn.TRevert, scn.TInvalid}
+		o.Gen.Kinds, o.Gen.Targets = []scn.Kind{scn.KCall, scn.KStaticCall}, []scn.Target{scn.TgChild, scn.TgCodeless}
 	}
 	w := fw.NewW("real", idx, n, "quick", 0)
 	execs, firings := 0, 0
